@@ -478,6 +478,44 @@ func runNat(t fataler, e *natEnv, c natCase) {
 		}
 	}
 
+	// ---- 5b. inputs the control plane installed nothing for must not hit the entries of their neighbours
+	{
+		e.resetDynamic(t)
+		uc := c
+		uc.proto = 17
+		e.egress(t, natFrame(uc, c.priv, c.dst, c.sport, c.algPort))
+		if n := e.natStat(t, "alg_triggers"); n != 0 {
+			vstat.Fail(t, sig("nat.Manager.ConfigureALG~alg_ports.key", "hit-by-other-protocol"), "ConfigureALG(%d, TCP) only: a UDP packet to port %d triggers the ALG (keys %v)",
+				c.algPort, c.algPort, keysOf(dumpKernel(t, e.maps["alg_ports"])))
+		}
+		if q := bswap16(c.algPort); q != c.algPort && q != 21 && q != 5060 {
+			e.resetDynamic(t)
+			tc := c
+			tc.proto = 6
+			e.egress(t, natFrame(tc, c.priv, c.dst, c.sport, q))
+			if n := e.natStat(t, "alg_triggers"); n != 0 {
+				vstat.Fail(t, sig("nat.Manager.ConfigureALG~alg_ports.key", "hit-by-other-port"), "ConfigureALG(%d, TCP) only: a TCP packet to port %d triggers the ALG (keys %v)",
+					c.algPort, q, keysOf(dumpKernel(t, e.maps["alg_ports"])))
+			}
+		}
+		// the neighbour address (last bit flipped: still private) has no allocation
+		nb := c.priv
+		nb[3] ^= 1
+		e.resetDynamic(t)
+		e.egress(t, natFrame(c, nb, c.dst, c.sport, c.dport))
+		if n := e.natStat(t, "packets_snat"); n != 0 {
+			vstat.Fail(t, sig("nat.ipToKey~subscriber_nat.key", "hit-by-neighbour-address"), "only %s has an allocation: a packet from %s is translated", ipOf(c.priv), ipOf(nb))
+		}
+		// an address that is no public address of ours is no hairpin target
+		if np := (ip4{c.pub[0], c.pub[1], c.pub[2], c.pub[3] ^ 1}); true {
+			e.resetDynamic(t)
+			e.egress(t, natFrame(c, c.priv, np, c.sport, c.dport))
+			if n := e.natStat(t, "packets_hairpin"); n != 0 {
+				vstat.Fail(t, sig("nat.ipToKey~hairpin_ips.key", "hit-by-neighbour-address"), "AddPublicIP(%s) only: a packet to %s is treated as a hairpin target", ipOf(c.pub), ipOf(np))
+			}
+		}
+	}
+
 	// ---- 6. read back: what the program counted is what GetStats reports
 	st := make([]byte, e.st.Size)
 	want := make([]uint64, len(e.st.Fields))
